@@ -44,6 +44,7 @@ fn profile() -> Profile<'static> {
         dup_names: &[],
         p_dup: 0,
         p_cond_call: 0,
+        same_call_address: false,
     }
 }
 
